@@ -887,6 +887,8 @@ func palsConstFacts(repo string) (string, error) {
 	for _, t := range []struct{ file, fn, lean string }{
 		{"align/pals/dp/kernel.go", "alignRecursion", "fpAlignRecursion"},
 		{"align/pals/dp/align.go", "AlignTraps", "fpAlignTraps"},
+		{"align/pals/dp/kernel.go", "traceForward", "fpTraceForward"},
+		{"align/pals/dp/kernel.go", "traceReverse", "fpTraceReverse"},
 	} {
 		fs2 := token.NewFileSet()
 		f2, err := parser.ParseFile(fs2, filepath.Join(repo, filepath.FromSlash(t.file)), nil, 0)
